@@ -36,6 +36,7 @@ structure Entry where
   nUserEnd : Int
   newDef : Bool
   equil : Option Int       -- `-equilibrate n`: solution_equilibria + n_solution
+  refs : List Int          -- MIX: the solution numbers of the mixture
 deriving DecidableEq, Repr, Inhabited
 
 /-- `std::map<int, T>`: association list, kept ascending by `ins` -/
@@ -208,8 +209,8 @@ inductive DelLine where
 deriving Repr
 
 inductive Block where
-  | define (k : Kind) (n m : Int) (id : Nat) (equil : Option Int)
-  | raw (k : Kind) (n m : Int) (id : Nat) (newDef : Bool)
+  | define (k : Kind) (n m : Int) (id : Nat) (equil : Option Int) (refs : List Int)
+  | raw (k : Kind) (n m : Int) (id : Nat) (newDef : Bool) (refs : List Int)
   | modify (k : Kind) (n m : Int) (id : Nat)
   | use (k : Kind) (n : Option Int)
   | save (k : Kind) (n m : Int)
@@ -280,21 +281,21 @@ def Kind.deferred : Kind → Bool
   | .solution | .pp | .exchange | .surface | .ss | .gas => true
   | _ => false
 
-def readDefine (s : St) (k : Kind) (n m : Int) (id : Nat) (eq : Option Int) : St :=
+def readDefine (s : St) (k : Kind) (n m : Int) (id : Nat) (eq : Option Int) (refs : List Int) : St :=
   let m := max m n
   let s := if (s.use k).inn then s else s.setUse k ⟨true, n⟩
   let (s, tok) := s.fresh s!"def {k.name} {id}"
-  let s := s.exec (.put k n ⟨tok, n, m, true, eq⟩)
+  let s := s.exec (.put k n ⟨tok, n, m, true, eq, refs⟩)
   match k with
   | .reaction => s.exec (.copies k n m)
   | .mix | .temperature | .pressure => s.exec (.copyEach k n m)
   | .kinetics => { s with seenKinetics := true }
   | _ => s.addNew k n
 
-def readRaw (s : St) (k : Kind) (n m : Int) (id : Nat) (nd : Bool) : St :=
+def readRaw (s : St) (k : Kind) (n m : Int) (id : Nat) (nd : Bool) (refs : List Int) : St :=
   let m := max m n
   let (s, tok) := s.fresh s!"raw {k.name} {id}"
-  let s := s.exec (.put k n ⟨tok, n, m, nd, none⟩)
+  let s := s.exec (.put k n ⟨tok, n, m, nd, none, refs⟩)
   let s := s.exec (.copies k n m)
   (rangeList n m).foldl (fun s i => s.addNew k i) s
 
@@ -329,8 +330,8 @@ def insMix (x : Int × Int × List Int) : List (Int × Int × List Int) → List
   | y :: t => if x.1 < y.1 then x :: y :: t else if x.1 = y.1 then x :: t else y :: insMix x t
 
 def readBlock (s : St) : Block → St
-  | .define k n m id eq => readDefine s k n m id eq
-  | .raw k n m id nd => readRaw s k n m id nd
+  | .define k n m id eq refs => readDefine s k n m id eq refs
+  | .raw k n m id nd refs => readRaw s k n m id nd refs
   | .modify k n m id => readModify s k n m id
   | .use k n => readUse s k n
   | .save k n m => s.setSave k ⟨true, n, m⟩
@@ -386,7 +387,7 @@ def tidyModel (s : St) : St := tidyKinetics (tidySS (tidyPP (tidyGas s)))
 
 /-! ### initial calculations -/
 
-def calcEntry (tok : Nat) (n : Int) : Entry := ⟨tok, n, n, false, none⟩
+def calcEntry (tok : Nat) (n : Int) : Entry := ⟨tok, n, n, false, none, []⟩
 
 def initialSolutions (s : St) : St :=
   (s.newSet .solution).foldl (fun s n =>
@@ -457,6 +458,14 @@ def saver (s : St) (save : Kind → SaveSlot) (kinSave : Option Int) : St :=
 /-- the store effects of one batch reaction after `use` is settled (copy_use, run, kinetics write-back, saver) -/
 def reactCore (s : St) (save : Kind → SaveSlot) (kinSave : Option Int) : St :=
   let s := copyUse s
+  -- add_mix: every solution of the mixture must exist ("Mix solution not found" → input error → stop in prep)
+  let missing : Option Int :=
+    if (s.use .mix).inn then
+      match s.find .mix (-2) with
+      | some e => e.refs.find? (fun c => (s.find .solution c).isNone)
+      | none => none
+    else none
+  if let some c := missing then s.stop s!"mixmissing {c}" else
   let s :=
     if (s.use .kinetics).inn then
       match s.find .kinetics (-2) with
